@@ -1,6 +1,7 @@
 use crate::ctx::Ctx;
 
 pub mod c01;
+pub mod c18;
 pub mod c11;
 pub mod c10;
 pub mod c15;
@@ -23,6 +24,7 @@ pub fn run(prop: &str, ctx: &mut Ctx) -> bool {
         "C15" => c15::run(ctx),
         "C10" => c10::run(ctx),
         "C11" => c11::run(ctx),
+        "C18" => c18::run(ctx),
         _ => return false,
     }
     true
